@@ -122,6 +122,13 @@ def allow_args(func: F) -> F:
             )
             raise ValueError(msg)
 
+        # A keyword must not name a parameter that is already bound positionally
+        duplicated = set(list(parameters)[: len(args)]).intersection(kwargs)
+        if duplicated:
+            raise ValueError(
+                f"Arguments provided both positionally and by keyword: {duplicated}",
+            )
+
         # Convert all arguments to positional arguments in correct order
         positional = list(args) + convert_kwargs_to_args(kwargs, list(parameters))
 
